@@ -40,13 +40,17 @@ structure Outcome where
 /-- replies that follow ABOR and whether the session survives.
     Uncaught cancellation: the worker task ends cancelled, the dispatcher's `task.result()` re-raises
     CancelledError (`except asyncio.CancelledError: raise`) and the session is torn down with no reply. -/
-def abor (guards : List Guard) (pos : Pos) : Outcome :=
+def aborWith (countsFinished : Bool) (guards : List Guard) (pos : Pos) : Outcome :=
   match pos with
   | .none => ⟨[226], true⟩
-  -- `if connection.extra_workers:` is true for a set holding a finished task: `cancel()` on it does nothing
-  -- and the `else` branch with "226 nothing to abort" is not taken: no reply at all
-  | .finishedUnreaped => ⟨[], true⟩
+  -- a truth test on `extra_workers` itself is true for a set holding a finished task: `cancel()` on it does
+  -- nothing and the `else` branch with "226 nothing to abort" is not taken: no reply at all.  A test on the
+  -- unfinished workers only (`Generated.aborCountsFinished = false`) answers 226.
+  | .finishedUnreaped => if countsFinished then ⟨[], true⟩ else ⟨[226], true⟩
   | p => if caught guards p then ⟨[426, 226], true⟩ else ⟨[], false⟩
+
+/-- ABOR as the source has it now (`aborCountsFinished` is read off `Server.abor` by the translator) -/
+def abor (guards : List Guard) (pos : Pos) : Outcome := aborWith aborCountsFinished guards pos
 
 def transferVerbs : List Verb := [.retr, .stor, .appe, .list, .mlsd]
 
